@@ -182,6 +182,23 @@ class IPStr(Shape):
             return SIPStr(octs)
         return '.'.join(str(o) for o in octs)
 
+class Count(Shape):
+    """an itertools.count at an arbitrary position >= 0"""
+    def build(self, b, name):
+        v = Int(0).build(b, name)
+        if b.mode == 'native':
+            import itertools
+            return itertools.count(v)
+        from .models import GhostCounter
+        return GhostCounter(v)
+
+def count_value(c):
+    """current position of a counter in either world"""
+    if type(c).__name__ == 'GhostCounter':
+        return c.value
+    import re
+    return int(re.match(r'count\((-?\d+)\)', repr(c)).group(1))
+
 class Const(Shape):
     def __init__(self, v):
         self.v = v
@@ -403,7 +420,7 @@ class Contract(object):
     def __init__(self, target, params, requires=None, raises=None, post=None, ensures=None, modifies=None,
                  havoc=None, only_raises=None, unchanged_on_raise=None, name=None, namespace=None,
                  inputs=None, ghost=None, resolver=None, max_paths=None, note=None, trusted=False,
-                 calls=None, applies_when=None, result_new=None, region=None):
+                 calls=None, applies_when=None, result_new=None, region=None, globals_=None):
         self.target_spec = target
         self.name = name or (target if isinstance(target, str) else getattr(target, '__qualname__', str(target)))
         self.params = dict(params)
@@ -423,6 +440,7 @@ class Contract(object):
         self.applies_when = CExpr(applies_when) if applies_when else None
         self.result_new = result_new      # class spec: the result is a fresh instance of this class
         self.region = region              # fn(FunctionDef) -> list of statements: the contract is on that block of the function
+        self.globals_ = dict(globals_ or {})   # name -> (module name, shape): module globals the function reads/writes
         self._func = None
         self._sig = None
 
@@ -449,12 +467,25 @@ class Contract(object):
         fr.locals.update(env)
         return fr
 
+    def _mentions_result(self):
+        for e in self.ensures:
+            for n in ast.walk(e.body):
+                if isinstance(n, ast.Name) and n.id == 'result':
+                    return True
+        return False
+
     # -- use at call sites --------------------------------------------------
 
     def apply(self, I, func, args, kwargs):
         """replace a call by the contract: assert pre, raise per clause,
         assign the defining posts, havoc, assume ensures"""
         ctx = I.ctx
+        covered = set(p.key for p, _ in self.post) | set(p.key for p, _ in self.havoc)
+        if any(p.key not in covered for p in self.modifies) or (self.result_new is None and self.ensures and not any(p.is_result for p, _ in self.post)
+                                                                and not any(p.is_result for p, _ in self.havoc) and self._mentions_result()):
+            # the contract does not define the new value of something it modifies (or of the result):
+            # it cannot stand in for the call -- the body is interpreted at this call site instead
+            return NotImplemented
         if self._sig is None:
             self._sig = inspect.signature(self.func)
         try:
@@ -562,6 +593,12 @@ class Contract(object):
             I = Interp(ctx, cfg)
             b = Builder('sym', ctx=ctx)
             env = con.build_inputs(b)
+            gkeys = {}
+            for gname, (gmod, gshape) in con.globals_.items():
+                gv = (gshape if isinstance(gshape, Shape) else Const(gshape)).build(b, gname)
+                gkeys[gname] = (id(importlib.import_module(gmod).__dict__), gname)
+                I.goverlay[gkeys[gname]] = gv
+                env[gname] = gv
             fr = con._frame(env)
             for r in con.requires:
                 ctx.assume(I.truth_term(r.eval(I, fr, r.eval_olds(I, fr))))
@@ -592,6 +629,8 @@ class Contract(object):
             except PyRaise as pr:
                 exc = pr.exc
                 result = None
+            for gname, gk in gkeys.items():
+                fr.locals[gname] = I.goverlay[gk]         # module globals as the function left them
             if exc is None:
                 fr.locals['result'] = result
                 if con.result_new is not None:
@@ -621,7 +660,16 @@ class Contract(object):
                         continue
                     ctx.oblige("%s/ensures:%s" % (q, e.text), ok)
                 allowed = set(p.key for p, _ in con.post) | set(p.key for p in con.modifies) | set(p.key for p, _ in con.havoc)
-                _frame_check(I, ctx, q, env, pre_objs, pre_state, allowed)
+                allowed_ids = set()
+                for pth in [p for p, _ in con.post] + list(con.modifies) + [p for p, _ in con.havoc]:
+                    node = pth.expr.body
+                    if isinstance(node, ast.Attribute):
+                        try:
+                            parent = I.ev(node.value, fr)
+                        except (PyRaise, Unsupported):
+                            continue
+                        allowed_ids.add((id(parent), node.attr))
+                _frame_check(I, ctx, q, env, pre_objs, pre_state, allowed, allowed_ids)
                 label = 'return'
             else:
                 match = [cv for (E, cv, text) in rconds if isinstance(exc, E)]
@@ -652,8 +700,11 @@ class Contract(object):
         whose locals are the contract's parameters"""
         from .interp import ReturnEx
         fr = Frame(func=self.func, globs=self.func.__globals__, defclass=_defclass(self.func))
-        fr.locals.update(env)
+        fr.locals.update(dict((k, v) for k, v in env.items() if k not in self.globals_))
         fr.self_obj = env.get('self')
+        for n in ast.walk(SOURCES.node_for(self.func)):
+            if isinstance(n, ast.Global):
+                fr.global_names.update(n.names)
         I.call_stack.append(self.qualname() + '[block]')
         try:
             try:
@@ -665,11 +716,18 @@ class Contract(object):
         return None
 
     def run_region_native(self, env):
-        mod = ast.Module(body=list(self.region_stmts()), type_ignores=[])
-        code = compile(mod, self.func.__code__.co_filename, 'exec')
-        loc = dict(env)
-        exec(code, self.func.__globals__, loc)
-        return None
+        """the block compiled as a function of the contract's parameters, with the
+        enclosing function's `global` declarations, executed in the real module"""
+        fnode = SOURCES.node_for(self.func)
+        gnames = sorted(set(nm for n in ast.walk(fnode) if isinstance(n, ast.Global) for nm in n.names))
+        params = [k for k in env if k not in self.globals_ and k.isidentifier()]
+        body = ([ast.Global(names=gnames)] if gnames else []) + list(self.region_stmts())
+        fdef = ast.FunctionDef(name='__region__', args=ast.arguments(posonlyargs=[], args=[ast.arg(arg=p) for p in params], vararg=None,
+                               kwonlyargs=[], kw_defaults=[], kwarg=None, defaults=[]), body=body, decorator_list=[], returns=None, type_comment=None)
+        mod = ast.fix_missing_locations(ast.Module(body=[fdef], type_ignores=[]))
+        ns = {}
+        exec(compile(mod, self.func.__code__.co_filename, 'exec'), self.func.__globals__, ns)
+        return ns['__region__'](*[env[p] for p in params])
 
     # -- native replay -------------------------------------------------------
 
@@ -678,6 +736,20 @@ class Contract(object):
         the contract natively.  returns (status, failures, info)"""
         b = Builder('native', values=dict(values), rng=rng or random.Random(0))
         env = self.build_inputs(b)
+        saved_globals = []
+        for gname, (gmod, gshape) in self.globals_.items():
+            gv = (gshape if isinstance(gshape, Shape) else Const(gshape)).build(b, gname)
+            mod = importlib.import_module(gmod)
+            saved_globals.append((mod, gname, getattr(mod, gname)))
+            setattr(mod, gname, gv)
+            env[gname] = gv
+        try:
+            return self._native_check_body(b, env)
+        finally:
+            for mod, gname, orig in saved_globals:
+                setattr(mod, gname, orig)
+
+    def _native_check_body(self, b, env):
         glob = self.namespace
         failures = []
         try:
@@ -695,7 +767,7 @@ class Contract(object):
         pre_state = {k: copy.deepcopy(dict(o.__dict__)) for k, o in pre_objs.items()}
         args, kwargs = self.call_args(env)
         f = self.func
-        ext = _native_externals()
+        ext = _native_externals(b.values)
         ext.__enter__()
         try:
             if self.region is not None:
@@ -708,6 +780,8 @@ class Contract(object):
             result = None
         finally:
             ext.__exit__()
+        for gname, (gmod, gshape) in self.globals_.items():
+            env[gname] = getattr(importlib.import_module(gmod), gname)
         if exc is None:
             env = dict(env, result=result)
             if self.result_new is not None and type(result) is not resolve(self.result_new):
@@ -737,12 +811,21 @@ class Contract(object):
                 if not okv:
                     failures.append("ensures %s is false" % e.text)
             allowed = set(p.key for p, _ in self.post) | set(p.key for p in self.modifies) | set(p.key for p, _ in self.havoc)
+            allowed_ids = set()
+            for pth in [p for p, _ in self.post] + list(self.modifies) + [p for p, _ in self.havoc]:
+                node = pth.expr.body
+                if isinstance(node, ast.Attribute):
+                    try:
+                        parent = eval(compile(ast.Expression(node.value), '<path>', 'eval'), glob, dict(env))
+                        allowed_ids.add((id(parent), node.attr))
+                    except Exception:
+                        pass
             for name, o in pre_objs.items():
                 before = pre_state[name]
                 after = o.__dict__
                 for k in set(before) | set(after):
                     path = name + '.' + k
-                    if path in allowed:
+                    if path in allowed or (id(o), k) in allowed_ids:
                         continue
                     if k not in after or k not in before or not _native_eq(before[k], after[k]):
                         failures.append("frame: %s changed (%r -> %r)" % (path, _short(before.get(k)), _short(after.get(k))))
@@ -823,14 +906,14 @@ def _collect_objects(env):
 def _snapshot_objects(objs):
     return {name: {k: snapshot(v) for k, v in o.__dict__.items()} for name, o in objs.items()}
 
-def _frame_check(I, ctx, q, env, pre_objs, pre_state, allowed):
+def _frame_check(I, ctx, q, env, pre_objs, pre_state, allowed, allowed_ids=()):
     """everything reachable from the inputs and not listed as modified is unchanged"""
     for name, o in pre_objs.items():
         before = pre_state[name]
         after = o.__dict__
         for k in sorted(set(before) | set(after)):
             path = name + '.' + k
-            if path in allowed:
+            if path in allowed or (id(o), k) in allowed_ids:
                 continue
             if k not in after:
                 ctx.oblige("%s/frame:%s" % (q, path), False, detail="attribute deleted")
@@ -877,7 +960,10 @@ class TraceContract(object):
     """calls to the target append (channel, args) to ctx.trace and return a
     fixed value; the callee's body is outside the unit (listed as external)"""
     trusted = True
-    def __init__(self, target, channel, returns=None, name=None, resolver=None, record=None, method=True):
+    def __init__(self, target, channel, returns=None, name=None, resolver=None, record=None, method=True, returns_shape=None,
+                 may_raise=None):
+        self.returns_shape = returns_shape      # each call returns a fresh value of this shape (recorded as an input)
+        self.may_raise = may_raise              # exception class the call may raise (a decision), or None
         self.method = method        # the target is a method: the receiver is not recorded
         self.target_spec = target
         self.name = name or (target if isinstance(target, str) else str(target))
@@ -900,9 +986,25 @@ class TraceContract(object):
     def apply(self, I, func, args, kwargs):
         I.cfg.used_contracts.add(self.name)
         rec = tuple(args[1:]) if self.method else tuple(args)
+        k = len(I.ctx.trace.get(self.channel, []))
+        ret = self.returns
+        ext_values = getattr(I.cfg, 'ext_values', None)
+        if self.returns_shape is not None:
+            if ext_values is not None:      # concrete run (interpreter cross-check): the values the native run drew
+                ret = self.returns_shape.build(Builder('interp', values=ext_values, rng=random.Random(k)), "ext!%s!%d" % (self.channel, k))
+            else:
+                ret = self.returns_shape.build(Builder('sym', ctx=I.ctx), "ext!%s!%d" % (self.channel, k))
+            rec = rec + (ret,)
         I.ctx.trace.setdefault(self.channel, []).append((rec, dict(kwargs)))
         I.ctx.trace.setdefault('*', []).append((self.channel, rec, dict(kwargs)))
-        return self.returns
+        if self.may_raise is not None and ext_values is not None:
+            if ext_values.get("ext!%s!%d!raises" % (self.channel, k)):
+                raise PyRaise(self.may_raise("<raised by the external %s>" % self.channel))
+        elif self.may_raise is not None:
+            b = I.ctx.fresh_bool("ext!%s!%d!raises" % (self.channel, k), is_input=True)
+            if I.ctx.decide(b.t):
+                raise PyRaise(self.may_raise("<raised by the external %s>" % self.channel))
+        return ret
 
 _NATIVE_TRACE = {}
 
@@ -916,8 +1018,11 @@ def _m_trace(I, channel):
 
 class _native_externals(object):
     """native replay: every ghost-traced external is replaced by a recorder"""
+    def __init__(self, values=None):
+        self.values = values if values is not None else {}
     def __enter__(self):
         self.saved = []
+        values = self.values
         _NATIVE_TRACE.clear()
         for c in REGISTRY.values():
             if isinstance(c, TraceContract) and isinstance(c.target_spec, str):
@@ -927,8 +1032,16 @@ class _native_externals(object):
                 orig = owner.__dict__.get(attr) if isinstance(owner, type) else getattr(owner, attr)
                 def mk(c=c):
                     def rec(*a, **k):
-                        _NATIVE_TRACE.setdefault(c.channel, []).append((tuple(a[1:]) if c.method else tuple(a), dict(k)))
-                        return c.returns
+                        n = len(_NATIVE_TRACE.get(c.channel, []))
+                        r = tuple(a[1:]) if c.method else tuple(a)
+                        ret = c.returns
+                        if c.returns_shape is not None:
+                            ret = c.returns_shape.build(Builder('native', values=values, rng=random.Random(n)), "ext!%s!%d" % (c.channel, n))
+                            r = r + (ret,)
+                        _NATIVE_TRACE.setdefault(c.channel, []).append((r, dict(k)))
+                        if c.may_raise is not None and values.get("ext!%s!%d!raises" % (c.channel, n)):
+                            raise c.may_raise("<raised by the external %s>" % c.channel)
+                        return ret
                     return rec
                 setattr(owner, attr, mk())
                 self.saved.append((owner, attr, orig))
@@ -996,7 +1109,7 @@ class Lemma(object):
         _NATIVE_STATE['failures'] = failures
         _NATIVE_STATE['skip'] = False
         try:
-            with _native_externals():
+            with _native_externals(b.values):
                 self.fn(*args)
             outcome = 'return'
         except _RequiresFalse:
@@ -1094,6 +1207,10 @@ def make_config(repo_root, verif_root, unit=None, extra_models=None):
             raise RuntimeError("contract %s: cannot resolve target: %r" % (c.name, e))
         if getattr(c, 'region', None) is not None:
             continue        # a contract on a block is verified, never substituted for calls of the function
+        if isinstance(c, TraceContract) and not isinstance(f, types.FunctionType):
+            cfg.models[id(f)] = (lambda c_, f_: (lambda I, *a, **k: c_.apply(I, f_, a, k)))(c, f)
+            cfg.contract_funcs[id(f)] = f
+            continue
         prev = cfg.contracts.get(id(f))
         if prev is not None and prev is not c:
             # several contracts on one function, told apart by applies_when: tried in registration order
@@ -1149,8 +1266,10 @@ def verify_unit(unit, repo_root, verif_root, rlimit=20000000, timeout_ms=60000, 
         res.inlined = sorted(cfg.inlined)
         res.used_contracts = sorted(cfg.used_contracts)
         for ob in er.obligations:
-            c = res.clauses.setdefault(ob.name, {'status': 'proved', 'paths': 0, 'solver_s': 0.0, 'failures': [], 'max_size': 0})
+            c = res.clauses.setdefault(ob.name, {'status': 'proved', 'paths': 0, 'solver_s': 0.0, 'failures': [], 'max_size': 0, 'cvc5_paths': 0})
             c['paths'] += 1
+            if ob.backend == 'cvc5':
+                c['cvc5_paths'] += 1
             c['solver_s'] += ob.solver_s
             c['max_size'] = max(c['max_size'], ob.size)
             if ob.status == 'refuted':
